@@ -88,7 +88,7 @@ def run(prog, run):
         if len(sinks) < len(sink_names):
             raise AnalysisBroken('C11: sinks %s not found in %s' % (sink_names, qn))
         cmps = [i for i in range(len(fn.nodes)) if _cmp_kind(fn, i)]
-        guards[qn] = sorted({fn.fmt(i) for i in cmps})
+        guards[qn] = sorted({' ~ '.join(sorted(fn.fmt(x) for x in fn.binop(i)[1:])) for i in cmps})   # operand set, whatever the order/operator
         # ---- R1: unreachable when from != own
         res = cfgx.sink_reachability(fn, evaluator(fn, False), sinks)
         for s in sinks:
@@ -166,7 +166,7 @@ def run(prog, run):
         run.violation(r4, 'carbon-managers#guard-shape', 'src/client/QXmppCarbonManager*.cpp',
                       'expected exactly one from/jidBare comparison per manager, found %s' % guards)
     else:
-        norm = {g[0].replace('!=', '~').replace('==', '~') for g in gs}
+        norm = {g[0] for g in gs}
         if len(norm) != 1:
             run.violation(r4, 'carbon-managers#guard-mismatch', 'src/client/QXmppCarbonManager*.cpp', 'guards differ: %s' % guards)
         else:
